@@ -10,7 +10,7 @@ import (
 	"golang.org/x/tools/go/ssa"
 )
 
-func init() { register("C13", c13Stable, c13Append, c13Accumulate, c13Release) }
+func init() { register("C13", c13Stable, c13Append, c13Accumulate, c13Release, c13Len, c13Remainder, c13Window, c13Alias) }
 
 const pkgStd = Mod + "/pkg/network/standard"
 
